@@ -2,6 +2,7 @@
 import ast
 import builtins
 import enum
+import fractions
 import inspect
 import types
 import typing
@@ -154,6 +155,16 @@ class CallMixin:
     def construct(self, st, cls, args, kwargs, node=None):
         if issubclass(cls, BaseException):
             return [(st, Exc(cls))]
+        if cls is fractions.Fraction and len(args) == 1 and not kwargs:
+            # Fraction(x) of an exact value is that value (finite Decimals convert exactly: assumption listed in C14)
+            v = args[0]
+            if isinstance(v, SReal):
+                return [(st, v)]
+            if isinstance(v, SInt):
+                return [(st, SReal(zreal(v)))]
+            if not is_sym(v):
+                return [(st, fractions.Fraction(v))]
+            raise Unsupported(f"Fraction({v!r})", node)
         if cls in (int, str, bool, list, tuple, dict, set, type, object, frozenset, float, range):
             return self.call_builtin(st, cls, args, kwargs, node)
         if isinstance(cls, type) and issubclass(cls, enum.Enum):
@@ -286,6 +297,21 @@ class CallMixin:
         if f is abs:
             v = args[0]
             return [(st, abs(v))]
+        if f is int and args and isinstance(args[0], SReal):
+            return [(st, SInt(z_trunc(args[0].z)))]
+        if f is float and args and isinstance(args[0], SReal):
+            # the nearest double: an (uninterpreted) function of the exact value
+            return [(st, SReal(z3.Function("nearest_float", z3.RealSort(), z3.RealSort())(args[0].z)))]
+        if f is round and args and isinstance(args[0], SReal):
+            if len(args) == 1 or args[1] is None:
+                return [(st, SInt(z_round_half_even(args[0].z)))]
+            n = args[1]
+            if isinstance(n, int) and not isinstance(n, bool) and n >= 0:
+                scale = z3.IntVal(10 ** n)
+                return [(st, SReal(z3.ToReal(z_round_half_even(args[0].z * z3.ToReal(scale))) / z3.ToReal(scale)))]
+            raise Unsupported("round() to a symbolic or negative number of places", node)
+        if f is hash and args and isinstance(args[0], SReal):
+            return [(st, SInt(z3.Function("hash_rational", z3.RealSort(), z3.IntSort())(args[0].z)))]
         if f is int:
             v = args[0] if args else 0
             if isinstance(v, (int, SInt)) and not isinstance(v, bool):
